@@ -100,15 +100,16 @@ def trunc(r):
 
 
 def op_int(v):
+    """int(v): one value alternative (an if-then-else over the operand kinds) and one alternative per exception class"""
     s = Val.s(v)
+    y = Val.y(v)
+    okv = z3.Or(V.is_int(v), V.is_bool(v), V.is_float(v), z3.And(V.is_str(v), V.int_str_ok(s)),
+                z3.And(V.is_bytes(v), V.int_str_ok(y)))
+    value = z3.If(V.is_int(v), Val.i(v), z3.If(V.is_bool(v), z3.If(Val.b(v), 1, 0),
+            z3.If(V.is_float(v), trunc(Val.r(v)), z3.If(V.is_str(v), V.int_of_str(s), V.int_of_str(y)))))
     return [
-        (V.is_int(v), val(v)),
-        (V.is_bool(v), val(V.VInt(z3.If(Val.b(v), 1, 0)))),
-        (V.is_float(v), val(V.VInt(trunc(Val.r(v))))),
-        (z3.And(V.is_str(v), V.int_str_ok(s)), val(V.VInt(V.int_of_str(s)))),
-        (z3.And(V.is_str(v), z3.Not(V.int_str_ok(s))), rz(ValueError)),
-        (z3.And(V.is_bytes(v), V.int_str_ok(Val.y(v))), val(V.VInt(V.int_of_str(Val.y(v))))),
-        (z3.And(V.is_bytes(v), z3.Not(V.int_str_ok(Val.y(v)))), rz(ValueError)),
+        (okv, val(V.VInt(value))),
+        (z3.Or(z3.And(V.is_str(v), z3.Not(V.int_str_ok(s))), z3.And(V.is_bytes(v), z3.Not(V.int_str_ok(y)))), rz(ValueError)),
         (z3.Or(V.is_none(v), V.is_list(v), V.is_tuple(v), V.is_set(v), V.is_dict(v), V.is_obj(v),
                V.is_fun(v), V.is_type(v)), rz(TypeError)),
     ]
@@ -116,14 +117,14 @@ def op_int(v):
 
 def op_float(v):
     s = Val.s(v)
+    y = Val.y(v)
+    okv = z3.Or(V.is_int(v), V.is_bool(v), V.is_float(v), z3.And(V.is_str(v), V.float_str_ok(s)),
+                z3.And(V.is_bytes(v), V.float_str_ok(y)))
+    value = z3.If(V.is_int(v), z3.ToReal(Val.i(v)), z3.If(V.is_bool(v), z3.If(Val.b(v), z3.RealVal(1), z3.RealVal(0)),
+            z3.If(V.is_float(v), Val.r(v), z3.If(V.is_str(v), V.float_of_str(s), V.float_of_str(y)))))
     return [
-        (V.is_int(v), val(V.VFloat(z3.ToReal(Val.i(v))))),
-        (V.is_bool(v), val(V.VFloat(z3.If(Val.b(v), z3.RealVal(1), z3.RealVal(0))))),
-        (V.is_float(v), val(v)),
-        (z3.And(V.is_str(v), V.float_str_ok(s)), val(V.VFloat(V.float_of_str(s)))),
-        (z3.And(V.is_str(v), z3.Not(V.float_str_ok(s))), rz(ValueError)),
-        (z3.And(V.is_bytes(v), V.float_str_ok(Val.y(v))), val(V.VFloat(V.float_of_str(Val.y(v))))),
-        (z3.And(V.is_bytes(v), z3.Not(V.float_str_ok(Val.y(v)))), rz(ValueError)),
+        (okv, val(V.VFloat(value))),
+        (z3.Or(z3.And(V.is_str(v), z3.Not(V.float_str_ok(s))), z3.And(V.is_bytes(v), z3.Not(V.float_str_ok(y)))), rz(ValueError)),
         (z3.Or(V.is_none(v), V.is_list(v), V.is_tuple(v), V.is_set(v), V.is_dict(v), V.is_obj(v),
                V.is_fun(v), V.is_type(v)), rz(TypeError)),
     ]
